@@ -9,12 +9,15 @@
      HookReqHeaders, HookRequest, HookRespHeaders, HookResponse      addons.trigger(Http...Hook(flow)): the
                  handlers of the four addons in chain order (the loops of the code are the recursive operators)
    One action per public call; the records emitted are the ones props/X03.py logs.
-   Named deviations of the code from the statement (see README / findings_proposed/X03.md):
-     EmptyRuleIndexError   parse_spec("") raises IndexError, which the addon manager logs: the update "succeeds",
-                           the rules after the empty one are dropped
-     RollbackReparses      configure empties self.replacements before parsing, rollback re-parses the old value: an
-                           old rule whose file has meanwhile gone makes the second configure stop half-way
-     StreamedTypeError     re.sub on content None (streamed body) raises TypeError *)
+   Three behaviours of the code as first checked broke the statement (findings_proposed/X03.md); they were repaired in
+   /repo (f0b18f0c9, 5dfbdb276, b6654346d).  Each stays in the model as a named BOOLEAN constant: FALSE describes the
+   repaired code (what props/X03.py sets), TRUE the old code (the reverts are kept as mutants M15-M17):
+     EmptyRuleIndexError   parse_spec("") raised IndexError, which the addon manager only logs: the update "succeeded"
+                           and the rules after the empty one were dropped.  Now: ValueError -> OptionsError.
+     RollbackReparses      configure emptied self.replacements before parsing and rollback re-parsed the old value: an
+                           old rule whose file had meanwhile gone made the second configure stop half-way.  Now: the list
+                           is built locally and assigned only when every rule parsed.
+     StreamedTypeError     re.sub on content None (streamed body) raised TypeError.  Now: run() returns at once. *)
 EXTENDS Mon_ModifyRules, TLC
 CONSTANTS World,      \* [rules, fs, files] as in the world record
           OptLists,   \* set of <<opt, <<rule ids>>>> the environment may set
@@ -22,6 +25,7 @@ CONSTANTS World,      \* [rules, fs, files] as in the world record
           Resps,      \* set of response records (fields of the respond event)
           FileOps,    \* set of [f, present, c]
           EarlyRespond, \* a script may set the response before the request hooks
+          EmptyRuleIndexError, RollbackReparses, StreamedTypeError,    \* see above; FALSE = the repaired code
           EnvStages,  \* stages of a flow (0 none .. 5 done) at which options / files may change
           MaxSet, MaxFile, MaxFlow
 VARIABLES opt, repl, files, fl, stage, nset, nfile, nflow, mon, obs
@@ -33,11 +37,11 @@ Unreadable(i) == R(i).file # 0 /\ ~files[R(i).file].present
 \* ---- configure -----------------------------------------------------------------------------------
 \* parse_modify_spec / parse_map_remote_spec / parse_map_local_spec on one rule: "" ok, "opt" ValueError ->
 \* OptionsError, "index" the IndexError of option[0] on the empty string
-RuleErr(i) == IF R(i).bad = "empty" THEN "index"
+RuleErr(i) == IF R(i).bad = "empty" THEN (IF EmptyRuleIndexError THEN "index" ELSE "opt")
               ELSE IF R(i).bad # "" THEN "opt"
               ELSE IF Unreadable(i) THEN "opt"       \* read_replacement() / resolve(strict=True) at parse time
               ELSE ""
-\* self.replacements = []; for option in ...: parse, append
+\* replacements = []; for option in ...: parse, append; self.replacements = replacements
 RECURSIVE Conf(_, _)
 Conf(L, acc) == IF L = <<>> THEN [rs |-> acc, err |-> ""]
                 ELSE IF RuleErr(Head(L)) # "" THEN [rs |-> acc, err |-> RuleErr(Head(L))]
@@ -61,10 +65,12 @@ MB_loop(f, rs) ==
   IF rs = <<>> THEN [fl |-> f, exc |-> ""]
   ELSE IF ~EvalF(R(Head(rs)).f, f) THEN MB_loop(f, Tail(rs))               \* spec.matches(flow) on the current flow
   ELSE IF Unreadable(Head(rs)) THEN MB_loop(f, Tail(rs))
-  ELSE IF Streamed(f) THEN [fl |-> f, exc |-> "TypeError"]                  \* StreamedTypeError
+  ELSE IF Streamed(f) THEN [fl |-> f, exc |-> "TypeError"]                  \* only with StreamedTypeError
   ELSE MB_loop(WithBody(f, Subst(Body(f), R(Head(rs)).s, Val(World, files, Head(rs)))), Tail(rs))
-MB_request(f) == IF f.resp \/ f.err \/ ~f.live THEN [fl |-> f, exc |-> ""] ELSE MB_loop(f, repl.mb)
-MB_response(f) == IF f.err \/ ~f.live THEN [fl |-> f, exc |-> ""] ELSE MB_loop(f, repl.mb)
+\* run(): a message whose raw_content is None (streamed) is left alone
+MB_run(f) == IF Streamed(f) /\ ~StreamedTypeError THEN [fl |-> f, exc |-> ""] ELSE MB_loop(f, repl.mb)
+MB_request(f) == IF f.resp \/ f.err \/ ~f.live THEN [fl |-> f, exc |-> ""] ELSE MB_run(f)
+MB_response(f) == IF f.err \/ ~f.live THEN [fl |-> f, exc |-> ""] ELSE MB_run(f)
 
 \* ---- MapRemote.request ---------------------------------------------------------------------------
 RECURSIVE MR_loop(_, _)
@@ -103,10 +109,13 @@ HookDone(h, r) == fl' = r.fl /\ Emit(<<HookEv(h, r.fl, r.exc)>>)
 
 SetOptDo(o, L, c) ==
      IF c.err = "opt"
-     THEN \* OptionsError -> rollback: old value back, changed.send -> configure once more (RollbackReparses)
-          /\ opt' = opt /\ repl' = [repl EXCEPT ![o] = Conf(opt[o], <<>>).rs]
+     THEN \* OptionsError: self.replacements is untouched; rollback puts the old value back and configures once more,
+          \* which re-assigns the same rules (old code, RollbackReparses: whatever of the old value still parses)
+          /\ opt' = opt
+          /\ repl' = IF RollbackReparses THEN [repl EXCEPT ![o] = Conf(opt[o], <<>>).rs]
+                     ELSE IF Conf(opt[o], <<>>).err = "" THEN [repl EXCEPT ![o] = opt[o]] ELSE repl
           /\ Emit(<<[k |-> "set", opt |-> o, rules |-> L, err |-> "OptionsError"]>>)
-     ELSE \* accepted; with EmptyRuleIndexError only the rules before the empty one are in effect
+     ELSE \* accepted (old code, EmptyRuleIndexError: only the rules before the empty one are in effect)
           /\ opt' = [opt EXCEPT ![o] = L] /\ repl' = [repl EXCEPT ![o] = c.rs]
           /\ Emit(<<[k |-> "set", opt |-> o, rules |-> L, err |-> ""]>>)
 
